@@ -638,8 +638,10 @@ theorem ub_orth_self (i N : ℕ) (hi : 1 ≤ i) (hN : i < N) :
   have e : sc i * ((i : ℝ) * (sc i * (1 / (i : ℝ))) / (i : ℝ) - -sc i)
       = (sc i * sc i) * (1 / (i : ℝ) + 1) := by
     field_simp
+    ring
   rw [e, sc_sq]
   field_simp
+  ring
 
 theorem ub_orth_lt (i' i N : ℕ) (hi' : 1 ≤ i') (h : i' < i) (hN : i < N) :
     ∑ j ∈ range N, ub i' j * ub i j = 0 := by
@@ -789,5 +791,197 @@ theorem parseval (a b : ℕ → ℝ) (n : ℕ) :
   ring
 
 end UB
+
+/-! ## Lists as `(List.range N).map f` and the `ilr` transform -/
+
+section Ilr
+open Finset
+
+theorem sum_range_map (f : ℕ → ℝ) (n : ℕ) :
+    ((List.range n).map f).sum = ∑ k ∈ range n, f k := by
+  induction n with
+  | zero => simp
+  | succ n ih => rw [List.range_succ, List.map_append, List.sum_append, ih, sum_range_succ]; simp
+
+theorem getD_range_map (f : ℕ → ℝ) {N j : ℕ} (h : j < N) :
+    ((List.range N).map f).getD j 0 = f j := by
+  rw [List.getD_eq_getElem?_getD, List.getElem?_eq_getElem (by simpa using h)]
+  simp
+
+theorem zipWith_range_map (op : ℝ → ℝ → ℝ) (f g : ℕ → ℝ) (N : ℕ) :
+    List.zipWith op ((List.range N).map f) ((List.range N).map g)
+      = (List.range N).map (fun j => op (f j) (g j)) := by
+  apply List.ext_getElem
+  · simp
+  · intro i h1 h2; simp
+
+theorem list_eq_range_map (x : List ℝ) :
+    x = (List.range x.length).map (fun j => x.getD j 0) := (range_map_getD x).symm
+
+theorem map_eq_range_map (x : List ℝ) (g : ℝ → ℝ) :
+    x.map g = (List.range x.length).map (fun j => g (x.getD j 0)) := by
+  conv_lhs => rw [list_eq_range_map x, List.map_map]
+  rfl
+
+theorem sum_take_map (x : List ℝ) (g : ℝ → ℝ) (i : ℕ) (hi : i ≤ x.length) :
+    ((x.take i).map g).sum = ∑ j ∈ range i, g (x.getD j 0) := by
+  induction i with
+  | zero => simp
+  | succ i ih =>
+    have hlt : i < x.length := by omega
+    rw [List.take_succ_eq_append_getElem hlt, List.map_append, List.sum_append, ih (by omega),
+      sum_range_succ]
+    simp [List.getD_eq_getElem?_getD, List.getElem?_eq_getElem hlt]
+
+theorem dot_eq (x y : List ℝ) : dot x y = (List.zipWith (· * ·) x y).sum := by
+  unfold dot; rw [lsum_eq_sum]
+
+theorem dot_range_map (f g : ℕ → ℝ) (N : ℕ) :
+    dot ((List.range N).map f) ((List.range N).map g) = ∑ j ∈ range N, f j * g j := by
+  rw [dot_eq, zipWith_range_map, sum_range_map]
+
+theorem ubasisRow_eq (n i : ℕ) : ubasisRow realA n i = (List.range (n + 1)).map (ub i) := rfl
+
+theorem ubasisRow_getD (n i j : ℕ) (hj : j ≤ n) : (ubasisRow realA n i).getD j 0 = ub i j := by
+  rw [ubasisRow_eq, getD_range_map _ (by omega)]
+
+/-- The rows of `ubasis(n)` are orthonormal. -/
+theorem ubasis_orthonormal (n i i' : ℕ) (hi : 1 ≤ i) (hin : i ≤ n) (hi' : 1 ≤ i') (hin' : i' ≤ n) :
+    dot (ubasisRow realA n i) (ubasisRow realA n i') = if i = i' then 1 else 0 := by
+  rw [ubasisRow_eq, ubasisRow_eq, dot_range_map]
+  exact ub_orth i i' (n + 1) hi hi' (by omega) (by omega)
+
+/-- Each row of `ubasis(n)` sums to zero. -/
+theorem ubasis_sum_zero (n i : ℕ) (hi : 1 ≤ i) (hin : i ≤ n) : (ubasisRow realA n i).sum = 0 := by
+  rw [ubasisRow_eq, sum_range_map]
+  exact ub_sum_zero i (n + 1) hi (by omega)
+
+/-- `log₂` of the `j`-th entry. -/
+noncomputable def Lg (x : List ℝ) (j : ℕ) : ℝ := Real.logb 2 (x.getD j 0)
+
+theorem logGM_eq_sum (x : List ℝ) :
+    logGM realA x = (∑ j ∈ range x.length, Lg x j) / (x.length : ℝ) := by
+  rw [logGM_eq, map_eq_range_map, sum_range_map]; rfl
+
+theorem clr_range (x : List ℝ) :
+    clr realA x = (List.range x.length).map (fun j => Lg x j - logGM realA x) := by
+  rw [clr_eq, map_eq_range_map]; rfl
+
+/-- `ilr` coordinate `k` is the pairing of the log vector with row `k+1`. -/
+theorem ilr_eq_log (x : List ℝ) :
+    ilr realA x = (List.range (x.length - 1)).map (fun k =>
+      ∑ j ∈ range x.length, Lg x j * ub (k + 1) j) := by
+  unfold ilr
+  apply List.map_congr_left
+  intro k hk
+  have hk' : k + 1 < x.length := by
+    have := List.mem_range.mp hk; omega
+  rw [sum_mul_ub (Lg x) (k + 1) x.length hk']
+  simp only [lsum_eq_sum]
+  rw [sum_take_map x realA.log (k + 1) (by omega)]
+  rfl
+
+/-- … and equally the pairing of the clr vector with row `k+1` (rows sum to zero). -/
+theorem ilr_eq_clr (x : List ℝ) :
+    ilr realA x = (List.range (x.length - 1)).map (fun k =>
+      ∑ j ∈ range x.length, (Lg x j - logGM realA x) * ub (k + 1) j) := by
+  rw [ilr_eq_log]
+  apply List.map_congr_left
+  intro k hk
+  have hk' : k + 1 < x.length := by
+    have := List.mem_range.mp hk; omega
+  have e : ∀ j ∈ range x.length, (Lg x j - logGM realA x) * ub (k + 1) j
+      = Lg x j * ub (k + 1) j - logGM realA x * ub (k + 1) j := fun j _ => by ring
+  rw [sum_congr rfl e, sum_sub_distrib, ← mul_sum, ub_sum_zero (k + 1) x.length (by omega) hk']
+  ring
+
+@[simp] theorem ilr_length (x : List ℝ) : (ilr realA x).length = x.length - 1 := by
+  simp [ilr]
+
+theorem ilr_eq_dot (x : List ℝ) :
+    ilr realA x = (List.range (x.length - 1)).map (fun k =>
+      dot (clr realA x) (ubasisRow realA (x.length - 1) (k + 1))) := by
+  rw [ilr_eq_clr]
+  apply List.map_congr_left
+  intro k hk
+  have hk' : k + 1 < x.length := by
+    have := List.mem_range.mp hk; omega
+  have hN : x.length - 1 + 1 = x.length := by omega
+  rw [clr_range, ubasisRow_eq, hN, dot_range_map]
+
+/-- The argument of `clrInv` in `ilrInv`, as a `range`-indexed list of finite sums. -/
+theorem ilrInv_eq (y : List ℝ) :
+    ilrInv realA y = clrInv realA ((List.range (y.length + 1)).map (fun j =>
+      ∑ k ∈ range y.length, y.getD k 0 * ub (k + 1) j)) := by
+  unfold ilrInv
+  simp only
+  congr 1
+  apply List.map_congr_left
+  intro j hj
+  have hj' : j ≤ y.length := by
+    have := List.mem_range.mp hj; omega
+  rw [lsum_eq_sum, sum_range_map]
+  exact sum_congr rfl (fun k _ => by rw [ubasisRow_getD _ _ _ hj'])
+
+/-- `clr x = Σ_k ilr(x)_k · u_k`. -/
+theorem sum_ilr_ubasis (x : List ℝ) (hne : x ≠ []) :
+    (List.range ((ilr realA x).length + 1)).map (fun j =>
+      ∑ k ∈ range (ilr realA x).length, (ilr realA x).getD k 0 * ub (k + 1) j) = clr realA x := by
+  have hpos : 0 < x.length := List.length_pos_iff.mpr hne
+  obtain ⟨n, hn⟩ : ∃ n, x.length = n + 1 := ⟨x.length - 1, by omega⟩
+  rw [ilr_length, clr_range, hn, Nat.add_sub_cancel]
+  apply List.map_congr_left
+  intro j hj
+  have hj' : j ≤ n := by
+    have := List.mem_range.mp hj; omega
+  have e : ∀ k ∈ range n, (ilr realA x).getD k 0 * ub (k + 1) j
+      = (∑ j' ∈ range (n + 1), Lg x j' * ub (k + 1) j') * ub (k + 1) j := by
+    intro k hk
+    rw [ilr_eq_log, hn, Nat.add_sub_cancel, getD_range_map _ (mem_range.mp hk)]
+  rw [sum_congr rfl e, proj_complete (Lg x) n j hj', logGM_eq_sum, hn]
+  push_cast; rfl
+
+theorem ilrInv_ilr (x : List ℝ) (hne : x ≠ []) (hx : ∀ v ∈ x, 0 < v) :
+    ilrInv realA (ilr realA x) = closure x := by
+  rw [ilrInv_eq, sum_ilr_ubasis x hne, clrInv_clr x hx]
+
+theorem ilr_ilrInv (y : List ℝ) : ilr realA (ilrInv realA y) = y := by
+  rw [ilrInv_eq, clrInv_eq, closure_eq]
+  set n := y.length with hn
+  set z : ℕ → ℝ := fun j => ∑ k ∈ range n, y.getD k 0 * ub (k + 1) j with hz
+  set S := (((List.range (n + 1)).map z).map (fun t => (2 : ℝ) ^ t)).sum with hS
+  have hSpos : 0 < S := sum_pos_of_pos (by simp) (map_exp_pos _)
+  have hw : (((List.range (n + 1)).map z).map (fun t => (2 : ℝ) ^ t)).map (· / S)
+      = (List.range (n + 1)).map (fun j => (2 : ℝ) ^ z j / S) := by
+    simp [List.map_map, Function.comp_def]
+  rw [hw, ilr_eq_log]
+  simp only [List.length_map, List.length_range, Nat.add_sub_cancel]
+  conv_rhs => rw [list_eq_range_map y]
+  apply List.map_congr_left
+  intro k hk
+  have hk' : k < n := List.mem_range.mp hk
+  have e : ∀ j ∈ range (n + 1),
+      Lg ((List.range (n + 1)).map (fun j => (2 : ℝ) ^ z j / S)) j * ub (k + 1) j
+        = z j * ub (k + 1) j - Real.logb 2 S * ub (k + 1) j := by
+    intro j hj
+    unfold Lg
+    rw [getD_range_map _ (mem_range.mp hj), log_div (exp_pos _) hSpos, log_exp]
+    ring
+  rw [sum_congr rfl e, sum_sub_distrib, ← mul_sum,
+    ub_sum_zero (k + 1) (n + 1) (by omega) (by omega), mul_zero, sub_zero]
+  exact proj_orth (fun k => y.getD k 0) n k hk'
+
+/-- `ilrInv` maps every real vector into the open simplex. -/
+theorem ilrInv_simplex (y : List ℝ) :
+    (ilrInv realA y).length = y.length + 1 ∧ (∀ v ∈ ilrInv realA y, 0 < v) ∧
+      (ilrInv realA y).sum = 1 := by
+  rw [ilrInv_eq, clrInv_eq]
+  have hne : ((List.range (y.length + 1)).map (fun j =>
+      ∑ k ∈ range y.length, y.getD k 0 * ub (k + 1) j)).map (fun t => (2 : ℝ) ^ t) ≠ [] := by
+    simp
+  obtain ⟨h1, h2, h3⟩ := closure_simplex hne (map_exp_pos _)
+  exact ⟨by rw [h1]; simp, h2, h3⟩
+
+end Ilr
 
 end Dit.Lemmas.Aitchison
